@@ -498,6 +498,7 @@ class Exec(object):
             r = mk_list(o.t, If(ln >= k, ln - k, IntVal(0)), tl)
             i = fresh_z('i', z3.IntSort())
             self.assume(p, ForAll([i], Implies(And(0 <= i, i < ln - k), Select(tl, i) == Select(list_arr(o), i + k)), patterns=[Select(tl, i)]))
+            self.assume(p, ForAll([i], Implies(And(k <= i, i < ln), Select(list_arr(o), i) == Select(tl, i - k)), patterns=[Select(list_arr(o), i)]))      # the same fact, found from the original list
             return r
         raise Unsupported('slice on %s' % o.t)
 
@@ -1030,8 +1031,15 @@ class Exec(object):
                 self.store(p, mexpr, mk_map(m.t, Store(map_dom(m), k.z, BoolVal(True)), Store(map_val(m), k.z, set_add(cur, x).z)))
                 return SV(NONE, parts(NONE)[1])
             raise Unsupported('setdefault(...).%s on %s' % (name, m.t))
+        if name == 'split' and not e.args and isinstance(f.value, ast.Call) and isinstance(f.value.func, ast.Attribute) and f.value.func.attr == 'strip' and not f.value.args:
+            # line.strip().split(): the blank-separated tokens of a line, an uninterpreted function of the line (assumption A-tokens)
+            ln = self.ev(p, f.value.func.value)
+            if ln.t == ATOM:
+                r = SV(LIST(ATOM), T.tokens(ln.z)); p.pc += self.type_inv(r); return r
         o = self.ev(p, f.value)
         args = [self.ev(p, a) if not self.is_empty_literal(a) else None for a in e.args]
+        if o.t == ATOM and name == 'startswith' and len(args) == 1 and args[0].t == ATOM:
+            return SV(BOOL, T.str_startswith(o.z, args[0].z))       # uninterpreted relation on opaque strings
         if o.t.kind == 'set':
             if name == 'copy': return o
             if name == 'isdisjoint': return SV(BOOL, S.disjoint(o, args[0]))
